@@ -23,17 +23,27 @@ theorem thin_air_eq : construct_reference_to_thin_air = thinAir := rfl
 /-- C12: the reward pays exactly subsidy(height) + fees, in one output, to the miner's key -/
 theorem coinbase_closed_form (height : Nat) (fees : Int) (data pk : Bytes) :
     construct_coinbase_transaction height fees data pk =
-      ⟨[⟨thinAir, .coinbase height data⟩], [⟨((get_block_subsidy height : Int) + fees).toNat, pk⟩]⟩ := rfl
+      ⟨[⟨thinAir, .coinbase height data⟩], [⟨((get_block_subsidy height : Int) + fees).toNat, pk⟩]⟩ := by
+  first
+  | rfl
+  | (simp [construct_coinbase_transaction, construct_reference_to_thin_air, thinAir, Int.add_comm]; done)
+  | (simp only [construct_coinbase_transaction, construct_reference_to_thin_air, thinAir]; congr 4; omega)
 
 theorem summary_closed_form {α : Type} (merkle : List α → Bytes) (ct : Nat → Nat → Bytes) (hh : Nat) (cur : Bytes)
     (txs : List α) (ts nonce : Nat) :
-    construct_minable_summary merkle ct hh cur txs ts nonce = ⟨hh + 1, cur, merkle txs, ts, ct (hh + 1) ts, nonce⟩ := rfl
+    construct_minable_summary merkle ct hh cur txs ts nonce = ⟨hh + 1, cur, merkle txs, ts, ct (hh + 1) ts, nonce⟩ := by
+  first
+  | rfl
+  | (simp [construct_minable_summary, Nat.add_comm]; done)
 
 theorem evidence_input_closed_form {α : Type} (fresh : Tx → α) (merkle : List α → Bytes) (ct : Nat → Nat → Bytes) (fees : Int)
     (hh : Nat) (cur : Bytes) (others : List α) (pk : Bytes) (ts : Nat) (data : Bytes) (nonce : Nat) :
     construct_block_pow_evidence_input fresh merkle ct fees hh cur others pk ts data nonce =
       (⟨hh + 1, cur, merkle (fresh (construct_coinbase_transaction (hh + 1) fees data pk) :: others), ts, ct (hh + 1) ts, nonce⟩,
-       hh + 1, fresh (construct_coinbase_transaction (hh + 1) fees data pk) :: others) := rfl
+       hh + 1, fresh (construct_coinbase_transaction (hh + 1) fees data pk) :: others) := by
+  first
+  | rfl
+  | (simp [construct_block_pow_evidence_input, summary_closed_form, Nat.add_comm]; done)
 
 /-- the model's reward transaction is the translated one on the model's fees -/
 theorem model_coinbase_as_translated (height : Nat) (others : List CTx) (u : Utxo) (data pk : Bytes) :
